@@ -346,15 +346,21 @@ def refresh_condition(las):
     ii = las.index_initial
     if ii is None:
         return "created"
-    if ii.shape != idx.shape or not bool(np.all(ii == idx)):
-        return "changed"
+    try:
+        if ii.shape != idx.shape or not bool(np.all(ii == idx)):
+            return "changed"
+    except Exception:
+        return None
     try:
         stop = las.well["STOP"].value
         stop = float(stop)
     except Exception:
         return "stop-disagrees"
-    if len(ii) and float(ii[-1]) != stop:
-        return "stop-disagrees"
+    try:
+        if len(ii) and float(ii[-1]) != stop:
+            return "stop-disagrees"
+    except Exception:
+        return None            # a text index
     return False
 
 
@@ -383,6 +389,10 @@ def truth(text, idx, cfg):
     try:
         strt, stop, step = r.well["STRT"], r.well["STOP"], r.well["STEP"]
     except Exception as e:
+        import re
+        heads = [l.split(".")[0].strip().upper() for l in text.split("\n")]
+        if any(heads.count(m) > 1 for m in SSS):
+            return out, "reread-items-ambiguous(case variants)"
         return [["truth-items-missing", repr(e)]], None
     try:
         widx = [float(x) for x in r.index]
@@ -779,11 +789,11 @@ def run(run):
     history(run, FINE_STEP, [plain] * 2, ["candidate:fine-step"], pend)
     rng = run.rng
     # objects built from scratch
-    for _ in range(run.budget(700, 12000)):
+    for _ in range(run.budget(1500, 12000)):
         recipe, tag = gen_scratch(rng)
         history(run, recipe, gen_cfgs(rng), [tag], pend)
     # objects read from literals, as read and edited
-    for _ in range(run.budget(500, 9000)):
+    for _ in range(run.budget(1000, 9000)):
         text, kw, tag = gen_text(rng)
         recipe = {"base": {"kind": "text", "text": text, "read_kw": kw}, "edits": []}
         sh = shape_of(recipe)
@@ -796,7 +806,7 @@ def run(run):
         history(run, recipe, gen_cfgs(rng), [tag.split(":stop-")[0], "stop-" + tag.split(":stop-")[1].split(":")[0],
                                              "edited" if recipe["edits"] else "as-read"], pend)
     # texts written by lasio itself, read back (then edited)
-    for _ in range(run.budget(150, 3000)):
+    for _ in range(run.budget(300, 3000)):
         r0, _tag = gen_scratch(rng)
         las = build(r0)
         if las is None:
@@ -815,7 +825,7 @@ def run(run):
     # the example corpus
     files = corpus()
     rng.shuffle(files)
-    for rel in files[:run.budget(30, len(files))]:
+    for rel in files[:run.budget(45, len(files))]:
         recipe = {"base": {"kind": "file", "file": rel}, "edits": []}
         sh = shape_of(recipe)
         if sh is None:
@@ -897,11 +907,13 @@ def search(run, disagreements):
 LEVEL_TEXT = ("Machine-checked Lean 4 theorems about an executable object-level model of LASFile.write (Lasio.Wo.writeObj: WRAP placement, "
               "refresh decision, update_start_stop_step, update_units_from_index_curve, in-place standardisation, header text through the "
               "header-writer model of C03 and data text through the data-writer model of C01): C16_frame (field-by-field relation between "
-              "the object before and after: data, index_initial, curve order, all original and session mnemonics, descriptions, ~Other "
-              "untouched; only STRT/STOP/STEP value+unit, curves[0].unit, the WRAP item and standardised ~W/~P values move), "
+              "the object before and after, from the closed form C16_closed_form: data, index_initial, curve order, all original and "
+              "session mnemonics, descriptions, ~Other untouched; only STRT/STOP/STEP value+unit, curves[0].unit, the WRAP item and "
+              "standardised ~W/~P values move; C16_frame_version: with a unique WRAP item nothing else in ~Version moves), "
               "C16_vers_untouched / C16_version_independent (the object afterwards does not depend on version=), C16_idempotent (a second "
-              "write with the same options gives byte-identical lines and the same object), C16_refresh_iff, C16_truth (values and units "
-              "after a refresh).  Tie: every real write of the generated histories vs the compiled model (text byte-exact + object dump), "
+              "write with the same options gives byte-identical lines and the same object; hypothesis WrapOK shown necessary by "
+              "C16_counterexample_dup_wrap / _stale_suffix), C16_refresh_iff, C16_truth / C16_units / C16_no_refresh (values and units "
+              "after the call).  Tie: every real write of the generated histories vs the compiled model (text byte-exact + object dump), "
               "and the property's oracle on the real code (full snapshots, repeated writes, re-read outputs).")
 LEVEL_NOTE = ("binary64 subtraction and str() of numbers are inputs of the model.  The truthfulness clause about the re-read OUTPUT is "
               "oracle-only.  Candidate findings kept strict: duplicated WRAP items grow by one per write(wrap=...); STEP is written as 0 / "
